@@ -92,6 +92,8 @@ Inductive ev :=
 | ViaHandle (o : nat)                     (* an operation has just been issued through the handle of stream o (ldap_handle()): that handle's
                                             last_id - which the stream consulted when it asked for a scrub, before repair F25 - is now the id
                                             allocated last *)
+| DropCall (o : nat)                      (* the caller gives up a next() that is pending (drops its future: the losing arm of a select!, an outer
+                                            timeout): no call is in progress any more; what the call had consumed so far stays consumed *)
 | Alloc (k : kind) (timeout : option Z)   (* the first half of Start: id allocation only *)
 | Enqueue (o : nat).                       (* the second half: self.tx.send(..) of an allocated operation; the op timer starts here *)
 
@@ -124,6 +126,7 @@ Definition scrub_id (s : st) (o : nat) (c : cop) : Z :=
 Definition step (s : st) (e : ev) : st :=
   match e with
   | ViaHandle o => s <| sids ::= cons (o, last s) |>
+  | DropCall o => match getop s o with Some c => match o_status c with SActive => updop o (fun c => c <| o_call := None |>) s | _ => s end | None => s end
   | Alloc k tmo => alloc k tmo s
   | Enqueue o => enqueue o s
   | Start k tmo =>
